@@ -444,7 +444,7 @@ impl Plan for C18Plan {
         vec![
             "non-planted entropy values are random and may match short prefixes by chance; the oracle evaluates the reference address of whatever was printed, it never assumes they do not match".into(),
             "spellings the statement leaves open (no 0x, 0X…, empty) are accepted either way".into(),
-            "bounded liveness: once every entropy response is a match, the command exits within 384+96*workers further entropy requests (and 16 scheduling steps per request) under any schedule — far above the one request per searcher the present code needs, so that batching or polling implementations are not constrained".into(),
+            "bounded liveness: once every entropy response is a match, the command exits within 384+32*workers further entropy requests (and 16 scheduling steps per request) under any schedule — far above the one request per searcher the present code needs, so that batching or polling implementations are not constrained".into(),
         ]
     }
     fn components(&self) -> Value {
